@@ -640,7 +640,19 @@ def failsave_case(acc, case, d=None):
                     font = TTFont(io.BytesIO(data), lazy=case.get("lazy"))
                     font.flavor = case["flavor"]
                     font[tag].compile = _boom
-                    font.save(dest)
+                    import pathlib
+
+                    font.save(pathlib.Path(dest) if case.get("pathlike") else dest, reorderTables=case.get("reorder", True))
+                elif api == "subset.save_font":
+                    from fontTools import subset
+
+                    font = TTFont(io.BytesIO(data), lazy=case.get("lazy"))
+                    opts = subset.Options()
+                    opts.flavor = case["flavor"]
+                    if case.get("reorder", None) is not None:
+                        opts.canonical_order = case["reorder"]
+                    font[tag].compile = _boom
+                    subset.save_font(font, dest, opts)
                 elif api == "TTCollection.save":
                     coll = TTCollection(io.BytesIO(data))
                     coll.fonts[case["member"]][tag].compile = _boom
@@ -704,11 +716,19 @@ def run_failsave_job(acc, job):
         for t in tags:
             for fl in job["flavors"]:
                 for lazy in job.get("lazies", [None]):
-                    cases.append(dict(space="failsave", api=api, file=relfile, tag=t, flavor=fl, lazy=lazy))
+                    if api in ("TTFont.save", "subset.save_font"):
+                        # every table order policy (pyftsubset passes None by default) and both kinds of path argument
+                        for ro in (True, False, None):
+                            cases.append(dict(space="failsave", api=api, file=relfile, tag=t, flavor=fl, lazy=lazy, reorder=ro, pathlike=(ro is not True and api == "TTFont.save" and len(cases) % 2 == 0)))
+                    else:
+                        cases.append(dict(space="failsave", api=api, file=relfile, tag=t, flavor=fl, lazy=lazy))
     with scratch_dir("c20fs") as d:
         outs = [(c, failsave_case(acc, c, d)) for c in cases]
     for c, out in outs:
-        acc.case(c, nontrivial=out.startswith("failed"), labels=["failsave:%s:%s" % (api, c.get("flavor")), "failsave:outcome:%s" % out], sample=c if c["tag"] == "hmtx" else None)
+        ls = ["failsave:%s:%s" % (api, c.get("flavor")), "failsave:outcome:%s" % out]
+        if "reorder" in c:
+            ls.append("failsave:reorderTables=%s%s" % (c["reorder"], ":pathlike" if c.get("pathlike") else ""))
+        acc.case(c, nontrivial=out.startswith("failed"), labels=ls, sample=c if c["tag"] == "hmtx" else None)
 
 
 def run_savexml_info_job(acc, job):
@@ -1261,6 +1281,7 @@ def jobs(tier, seed):
         J.append(dict(kind="failsave", name="failsave-save-%s" % os.path.basename(b), api="TTFont.save", file=b, flavors=[None, "woff", "woff2"]))
     for b in fs_fonts[: (8 if thorough else 2)]:
         J.append(dict(kind="failsave", name="failsave-ttx-%s" % os.path.basename(b), api="ttx-o", file=b, flavors=[None, "woff"] if not thorough else [None, "woff", "woff2"]))
+        J.append(dict(kind="failsave", name="failsave-subset-%s" % os.path.basename(b), api="subset.save_font", file=b, flavors=[None, "woff"]))
     for b in ["ttx/data/TestTTC.ttc", "ttx/data/TestTTCv2.ttc"]:
         J.append(dict(kind="failsave", name="failsave-ttc-%s" % os.path.basename(b), api="TTCollection.save", file=b))
     J.append(dict(kind="failsave", name="failsave-ttc-built", api="TTCollection.save", file="ttx/data/TestOTF.otf", wrap="ttc"))
@@ -1275,7 +1296,7 @@ MUST_OCCUR = [
     "open:woff2:trunc", "open:woff2:byte", "open:garbage", "open:outcome:ttliberror", "open:outcome:opened:all-tables-equal-ref",
     "fallback:trunc", "fallback:flip", "fallback:outcome:fellback:resaved-identically",
     "failsave:TTFont.save:None", "failsave:TTFont.save:woff", "failsave:TTFont.save:woff2", "failsave:TTCollection.save:None",
-    "failsave:ttx-o:None", "text:ttx:attr", "text:ttx:text", "text:ttx:outcome:reached:safeEval-site",
+    "failsave:ttx-o:None", "failsave:subset.save_font:None", "failsave:reorderTables=None", "failsave:reorderTables=False:pathlike", "text:ttx:attr", "text:ttx:text", "text:ttx:outcome:reached:safeEval-site",
     "text:ttx:outcome:reached:behaviour-changed", "text:ttx-src", "text:ttx-cli", "text:ttx-glyphname", "text:fea:include-arg", "text:fea:prepended-include",
     "text:fea:string", "text:ds-parse", "text:varlib-main", "text:varlib-main:outcome:built-inside", "text:glif-attr",
     "text:glyph-name", "text:contents-fileName", "text:layercontents-dir", "text:plist-value", "text:ufo:backend:bundled",
